@@ -217,6 +217,17 @@ func (c *Conversation) generateSMP1(question string) tlv {
 	return ret
 }
 
+// validSMPGroupElements reports whether every received value lies in
+// [2, p-2], as the SMP specification requires of all group elements.
+func validSMPGroupElements(elems ...*big.Int) bool {
+	for _, e := range elems {
+		if e.Cmp(g) < 0 || e.Cmp(pMinus2) > 0 {
+			return false
+		}
+	}
+	return true
+}
+
 func (c *Conversation) processSMP1(mpis []*big.Int) error {
 	if len(mpis) != 6 {
 		return errors.New("otr: incorrect number of arguments in SMP1 message")
@@ -227,6 +238,9 @@ func (c *Conversation) processSMP1(mpis []*big.Int) error {
 	g3a := mpis[3]
 	c3 := mpis[4]
 	d3 := mpis[5]
+	if !validSMPGroupElements(g2a, g3a) {
+		return errors.New("otr: invalid group element in SMP1 message")
+	}
 	h := sha256.New()
 
 	r := new(big.Int).Exp(g, d2, p)
@@ -338,6 +352,10 @@ func (c *Conversation) processSMP2(mpis []*big.Int) (out tlv, err error) {
 	cp := mpis[8]
 	d5 := mpis[9]
 	d6 := mpis[10]
+	if !validSMPGroupElements(g2b, g3b, pb, qb) {
+		err = errors.New("otr: invalid group element in SMP2 message")
+		return
+	}
 	h := sha256.New()
 
 	r := new(big.Int).Exp(g, d2, p)
@@ -457,6 +475,10 @@ func (c *Conversation) processSMP3(mpis []*big.Int) (out tlv, err error) {
 	ra := mpis[5]
 	cr := mpis[6]
 	d7 := mpis[7]
+	if !validSMPGroupElements(pa, qa, ra) {
+		err = errors.New("otr: invalid group element in SMP3 message")
+		return
+	}
 	h := sha256.New()
 
 	r := new(big.Int).Exp(g, d5, p)
@@ -532,6 +554,9 @@ func (c *Conversation) processSMP4(mpis []*big.Int) error {
 	rb := mpis[0]
 	cr := mpis[1]
 	d7 := mpis[2]
+	if !validSMPGroupElements(rb) {
+		return errors.New("otr: invalid group element in SMP4 message")
+	}
 	h := sha256.New()
 
 	r := new(big.Int).Exp(c.smp.qaqb, d7, p)
